@@ -366,6 +366,9 @@ def search_data(rng, N, cplx, style):
         x = lowbit(rng, N, cplx, bits=5)
     else:
         x = (rng.standard_normal(N) + (1j * rng.standard_normal(N) if cplx else 0)) * 10.0 ** int(rng.integers(-6, 7))
+        if rng.integers(0, 3) == 0:
+            # extreme but representable amplitudes: every second-order quantity (1e-240 .. 1e240) is still a normal double
+            x = x / np.max(np.abs(x)) * 10.0 ** int(rng.choice([-120, -90, 90, 120]))
     if not np.any(x):
         x[0] = 1.0
     return x
